@@ -1,5 +1,7 @@
 pub mod c01;
 pub mod c01_carriers;
+pub mod c03;
+pub mod c11;
 
 use crate::runner::{Report, Tier};
 use serde_json::Value;
@@ -14,5 +16,9 @@ pub struct Ctx {
 pub type CheckFn = fn(&Ctx, &mut Report);
 
 pub fn registry() -> Vec<(&'static str, CheckFn)> {
-    vec![("C01", c01::run as CheckFn)]
+    vec![
+        ("C01", c01::run as CheckFn),
+        ("C03", c03::run as CheckFn),
+        ("C11", c11::run as CheckFn),
+    ]
 }
